@@ -427,6 +427,12 @@ open TMap Types in
 def tyMap : String → Option TMap
   | "int" | "long" | "double" | "char" => some (basic 1)
   | "complex" => some (basic 2)
+  -- the other intrinsic types of mpitraits.hh
+  | "uchar" | "short" | "ushort" | "uint" | "ulong" | "float" | "ldouble" => some (basic 1)
+  | "cfloat" | "cldouble" => some (basic 2)
+  -- types without a specialisation: `MPI_Type_contiguous(sizeof(T), MPI_BYTE)`; one cell per member here
+  | "llong" => some (contiguous 1 (basic 1))
+  | "pod" => some (contiguous 3 (basic 1))
   | "fv3" => some (fieldVector 0 3 (basic 1))
   | "big96" => some (bigUnsigned 0 1 (basic 1))
   | "pair" => some (pair 0 (basic 1) 1 (basic 1) 2)
@@ -444,9 +450,40 @@ def lexLt : List Int → List Int → Bool
 
 def zipOp (f : Int → Int → Int) (a b : List Int) : List Int := List.zipWith f a b
 
+def isLightArith (ty : String) : Bool :=
+  ty == "uchar" || ty == "short" || ty == "ushort" || ty == "uint" || ty == "ulong" || ty == "float" || ty == "ldouble"
+    || ty == "llong"
+
+def complexMul (a b : List Int) : List Int :=
+  match a, b with
+  | [ar, ai], [br, bi] => [ar * br - ai * bi, ar * bi + ai * br]
+  | _, _ => []
+
+/-- composition of the affine maps `x ↦ a x + b (mod 1009)`, first argument applied first; third cell adds up —
+associative, not commutative -/
+def affOp (f g : List Int) : List Int :=
+  match f, g with
+  | [a1, b1, c1], [a2, b2, c2] => [(a1 * a2) % 1009, (a2 * b1 + b2) % 1009, c1 + c2]
+  | _, _ => []
+
 /-- reduction functors of the harness at cell level: `op in inout` = `func(*in, *inout)` -/
 def redOp (ty fn : String) : Option (List Int → List Int → List Int) :=
+  if isLightArith ty then
+    match fn with
+    | "sum" => some (zipOp (· + ·))
+    | "prod" => some (zipOp (· * ·))
+    | "min" => some (zipOp min)
+    | "max" => some (zipOp max)
+    | _ => none
+  else if ty == "cfloat" || ty == "cldouble" then
+    match fn with
+    | "sum" => some (zipOp (· + ·))
+    | "prod" => some complexMul
+    | _ => none
+  else
   match ty, fn with
+  | "int", "first" => some fun a _ => a
+  | "fv3", "aff" => some affOp
   | "int", "sum" | "long", "sum" | "double", "sum" | "complex", "sum" | "fv3", "sum" => some (zipOp (· + ·))
   | "int", "prod" | "long", "prod" | "double", "prod" => some (zipOp (· * ·))
   | "int", "min" | "long", "min" | "double", "min" | "big96", "min" => some (zipOp min)
